@@ -741,7 +741,8 @@ func (p *BinaryProtocol) ReadInt(t Type) (value int, err error) {
 	switch t {
 	case I08:
 		n, err := p.ReadByte()
-		return int(n), err
+		// a thrift byte is signed, like the other widths
+		return int(int8(n)), err
 	case I16:
 		n, err := p.ReadI16()
 		return int(n), err
@@ -854,7 +855,7 @@ func (p *BinaryProtocol) EncodeText(desc *TypeDescriptor, buf *[]byte, byteAsUin
 			*buf = strconv.AppendInt(*buf, int64(uint8(b)), 10)
 			return nil
 		} else {
-			*buf = strconv.AppendInt(*buf, int64(b), 10)
+			*buf = strconv.AppendInt(*buf, int64(int8(b)), 10)
 			return nil
 		}
 	case I16:
